@@ -440,7 +440,9 @@ PROPS["C07"] = dict(
                "not executed (its emissions are C02 / C05 / C14). Symbolic links inside the directory are followed (out of scope).",
     technique="deductive verification relative to assumed posixpath contracts (string theory); bounded run on a real tree with an audit hook and a lexical reference resolver",
     explanation="proved (relative to A-path-*): confinement and completeness of ensure_absolute_path, Pages index mapping, "
-                "check_path_is_file; bounded: app decision logic, audit of touched paths, validation of the assumptions.",
+                "check_path_is_file, and the four applications Files / Pages __call__ (only paths inside the directory reach "
+                "os.stat, what is served is what was checked, exactly one outcome, the 304 decision of C14); bounded: audit of "
+                "touched paths on a real tree, validation of the path assumptions.",
 )
 
 PROPS["C12"] = dict(
@@ -473,8 +475,8 @@ PROPS["C12"] = dict(
                "contract (MultipartDecoder, Route.matches, Files/Pages.__call__) are covered by the bounded layer only.",
     technique="deductive verification: exceptional postconditions (allowed-exception sets) discharged per path over the real try/except structure, SMT; bounded grammar-aware fuzzing with known-finding regions",
     explanation="proved: allowed-exception sets of parse_range, FileResponse.__call__ (both), validator predicates, stat wrapper, "
-                "cookie parser, content_length, date, _build_url, Request.json / Request.form / request.url (both interfaces); bounded: "
-                "fuzzing of all entry points incl. JSON/form/multipart.",
+                "cookie parser, content_length, date, _build_url, Request.json / Request.form / request.url (both interfaces), the multipart "
+                "decoder's header-block step next_event[PART]; bounded: fuzzing of all entry points incl. JSON/form/multipart.",
 )
 
 PROPS["C01"] = dict(
@@ -503,10 +505,10 @@ PROPS["C01"] = dict(
                "produces one item per completed part, relative to the decoder's event contract.",
     level_note="Trusted: the decoder's event grammar as a ghost script (A-decoder-events); bytearray.rindex (A-bytes); re semantics; "
                "SpooledTemporaryFile. The regex search of the DATA step is a stub (A-re-search: a match is line-break '--' boundary tail; leftmost-ness is not "
-               "used); the PREAMBLE / PART / EPILOGUE steps, the header parser and the composition of steps into the "
+               "used); the PART step is proved with the header parser as a stub (next_event[PART]); the PREAMBLE / EPILOGUE steps, the header parser's body and the composition of steps into the "
                "end-to-end clause are bounded only.",
     technique="deductive verification of the decoder's streaming step (byte conservation, safe hold-back, state transition; SMT strings) and of the helper twins / event loop; bounded exhaustive enumeration on the real decoder for the end-to-end clause (labelled)",
-    explanation="proved: next_event[DATA] conservation and safe release, last_newline, helper twins are the same program, one item per "
+    explanation="proved: next_event[DATA] conservation and safe release, next_event[PART] (header block consumed, raise catalogue), last_newline, helper twins are the same program, one item per "
                 "part in parse_stream; bounded: end-to-end exactness and chunking independence (enumerated contents x chunkings).",
 )
 
